@@ -243,6 +243,44 @@ def solver_points():
     return _POINTS
 
 
+def veq(a, b, by_value):
+    """equality of two normal forms; on the by-value path an identity beyond the normaliser is looked at numerically: a point
+    where the two differ refutes it, agreement at every sample point leaves it undecided (numeval raises)"""
+    a, b = scalar(a), scalar(b)
+    if a.equals(b):
+        return True
+    if not by_value:
+        return False
+    from xfabsa import numeval
+    return numeval.decide_equal(a, b, numeval.default_domain(a, b)) is True
+
+
+def same_sign_everywhere(x, want):
+    """the two-or-none test compares a quantity that is `want` times a positive factor: refuted by a sample point where the two
+    have different signs, undecided (AnalysisError) when no normal form shows it"""
+    from xfabsa import numeval
+    r = x / want
+    one = r / func_atom("abs", r)
+    return numeval.decide_equal(one, Rat.const(1), numeval.default_domain(x, want)) is True
+
+
+def positive_sin_theta(f):
+    """0 < 2 theta < pi on the whole domain: sin(theta) is a positive quantity, so sqrt(sin^2(theta) x) = sin(theta) sqrt(x)"""
+    def run(*a, **k):
+        from xfabsa.poly import POSITIVE_SCALE_ATOMS, single_atom
+        at = single_atom(scalar(N.ref("sin(tw/2)", {"tw": Rat.atom("twoth")})))
+        added = at is not None and at not in POSITIVE_SCALE_ATOMS
+        if added:
+            POSITIVE_SCALE_ATOMS.append(at)
+        try:
+            return f(*a, **k)
+        finally:
+            if added:
+                POSITIVE_SCALE_ATOMS.remove(at)
+    return run
+
+
+@positive_sin_theta
 def analyse_general_like(ctx, mod, short, solver, builder_call, half_angle):
     """find_omega_general / find_omega_quart"""
     fn = mod.func(solver); ctx.saw(mod, fn)
@@ -253,16 +291,26 @@ def analyse_general_like(ctx, mod, short, solver, builder_call, half_angle):
     # laue rescales: evaluate on the rescaled vector's own atoms by giving the solver a vector
     # and reading which vector it finally rotates (g_used)
     fn_run, pre = fn, None
+    valuepath = False
     if short == "laue":
         # laue = rescaling preamble + the tools body on the rescaled vector; the preamble is decided
         # separately (here and in C14), the body is analysed on a vector of the asserted length
         fn_run, pre = strip_rescale_preamble(fn)
-        check_preamble(ctx, mod, short, solver, pre)
+        if pre is None:
+            # the rescaling is not a statement of the solver itself (a shared implementation, a helper): by value -- the whole
+            # solver runs on a vector of ANY length, and its roots must solve the equation for sin(theta) g/|g|
+            valuepath, fn_run = True, fn
+        else:
+            check_preamble(ctx, mod, short, solver, pre)
     s2, out, orc, ev = two_or_none(ctx, mod, short, solver, fn_run, [g, tw, wx, wy], where)
     omega, eta = as_list(out[0]), as_list(out[1])
     # which vector is rotated: tools g_w itself (asserted length), laue the rescaled one
     gu = gv
-    if True:
+    if valuepath:
+        gref = N.ref("sin(twoth/2)*g/sqrt(g[0]*g[0]+g[1]*g[1]+g[2]*g[2])", {"g": g, "twoth": tw})
+        gref = gref if isinstance(gref, Arr) else materialise(gref)
+        gu = [scalar(x_) for x_ in gref.data]
+    else:
         # by value: some assertion bounds |g.g - sin^2(twoth/2)| by a small constant
         gg_ = gv[0] * gv[0] + gv[1] * gv[1] + gv[2] * gv[2]
         want_ = func_atom("abs", gg_ - N.ref("sin(tw/2)*sin(tw/2)", {"tw": tw}))
@@ -307,8 +355,8 @@ def analyse_general_like(ctx, mod, short, solver, builder_call, half_angle):
                 c_i, s_i = got_cs
             if pk == 0:
                 cs.append((c_i, s_i))
-            unit = (c_i * c_i + s_i * s_i).equals(1)
-            cond = (A * c_i + B * s_i + C0).equals(-gg)
+            unit = veq(c_i * c_i + s_i * s_i, Rat.const(1), valuepath)
+            cond = veq(A * c_i + B * s_i + C0, -gg, valuepath)
             ctx.check(unit and cond, "C09:root:%s.%s[%d]%s" % (short, solver, i, sfx),
                       "with (cos w, sin w) = %s of omega[%d]: on the unit circle: %s ; x-row of M(w).g == -g.g: %s "
                       "(M = the module's own %s)" % ("the arguments" if args is not None else "the cosine and sine", i, unit, cond,
@@ -338,7 +386,7 @@ def analyse_general_like(ctx, mod, short, solver, builder_call, half_angle):
             gz = Mi[2][0] * gu[0] + Mi[2][1] * gu[1] + Mi[2][2] * gu[2]
             s2t = N.ref("sin(tw)", {"tw": tw})
             ea = arctan2_args(scalar(eta_p[i]))
-            oke = ea is not None and ea[0].equals(-2 * gy / s2t) and ea[1].equals(2 * gz / s2t)
+            oke = ea is not None and veq(ea[0], -2 * gy / s2t, valuepath) and veq(ea[1], 2 * gz / s2t, valuepath)
             ctx.check(oke, "C09:eta:%s.%s[%d]%s" % (short, solver, i, sfx),
                       "eta[%d] is not arctan2(-2 (M(omega_i) g)_y / sin 2theta, 2 (M(omega_i) g)_z / sin 2theta) with M the module's "
                       "builder at the solver's own omega, tilts and units" % i, where)
@@ -350,10 +398,15 @@ def analyse_general_like(ctx, mod, short, solver, builder_call, half_angle):
     # side where that discriminant is positive (tangency is outside the claim)
     want = A * A + B * B - (gg + C0) * (gg + C0)
     okd = orc.disc is not None and pos_multiple(orc.disc * s2, want)
+    if valuepath:
+        ctx.ok("C09:length:%s.%s" % (short, solver))      # decided by the root and eta rules against sin(theta) g/|g|
+        if not okd and orc.disc is not None:
+            okd = same_sign_everywhere(orc.disc * s2, want)
     ctx.check(okd, "C09:count:%s.%s:discriminant" % (short, solver),
               "the branch test is not `a^2 + b^2 - c^2 < 0` for the equation the roots solve", where)
 
 
+@positive_sin_theta
 def analyse_find_omega(ctx, mod, short):
     solver = "find_omega"
     fn = mod.func(solver); ctx.saw(mod, fn)
@@ -363,10 +416,13 @@ def analyse_find_omega(ctx, mod, short):
     tw = Rat.atom("twoth")
     results = {}
     fn_run = fn
+    valuepath = False
     if short == "laue":
         fn_run, pre = strip_rescale_preamble(fn)
         if pre is not None:
             check_preamble(ctx, mod, short, solver, pre)
+        else:
+            valuepath, fn_run = True, fn      # (see analyse_general_like: the whole solver, by value)
     results = {}
     for r in (1, -1):
         asked = []
@@ -408,12 +464,12 @@ def analyse_find_omega(ctx, mod, short):
         verdict = None
         for kappa in (1, -1):
             s_i = asked[i] * kappa                  # candidate for sin w_i
-            unit = (c_i * c_i + s_i * s_i).equals(1)
+            unit = veq(c_i * c_i + s_i * s_i, Rat.const(1), valuepath)
             lhs = A * c_i + B * s_i + C0            # must be -sin(theta): negative, square (1 - cos 2theta)/2
-            sq = (lhs * lhs).equals((1 - C2) / 2)
-            negsign = lhs.equals((C2 - 1) / sqrt_of(2 * (1 - C2)))
+            sq = veq(lhs * lhs, (1 - C2) / 2, valuepath)
+            negsign = veq(lhs, (C2 - 1) / sqrt_of(2 * (1 - C2)), valuepath)
             # in the run where the tested difference has sign r, sin w_i has sign kappa*r: omega = (kappa*r) * arccos(c_i)
-            follows = all(scalar(results[r][0][i]).equals(acos * (kappa * r)) for r in (1, -1))
+            follows = all(veq(results[r][0][i], acos * (kappa * r), valuepath) for r in (1, -1))
             verdict = (unit, sq, negsign, follows)
             if all(verdict):
                 roots.append((c_i, s_i))
@@ -425,6 +481,8 @@ def analyse_find_omega(ctx, mod, short):
         ctx.check(not (roots[0][0].equals(roots[1][0]) and roots[0][1].equals(roots[1][1])),
                   "C09:count:%s.find_omega:distinct" % short, "the two roots coincide", where)
     okd = orc.disc is not None and pos_multiple(orc.disc * s2, A * A + B * B - (1 - C2) / 2)
+    if valuepath and not okd and orc.disc is not None:
+        okd = same_sign_everywhere(orc.disc * s2, A * A + B * B - (1 - C2) / 2)
     ctx.check(okd, "C09:count:%s.find_omega:discriminant" % short,
               "the branch test is not `a^2 + b^2 - c^2 > 0`", where)
 
